@@ -41,7 +41,8 @@
    (`self._D = dask.compute(..)[0]` -> `dask.compute(..)[0]`); for ISV, which has no D phase, U.            *)
 EXTENDS Integers, Sequences, FiniteSets, TLC, Json
 
-CONSTANTS ScnSet,       \* scenarios <<y, comp>>: labels of the flattened bag, partition lengths
+CONSTANTS ScnSet,       \* explicit scenarios <<y, comp>>: labels of the flattened bag, partition lengths
+          Gen,          \* <<nmin, nmax, kmax>>: in addition, every surjective labelling x every composition in that range
           Modes,        \* subset of {"Shared", "Isolated"}
           Kinds,        \* subset of {"ISV", "JFA"}
           Iters,        \* values of em_iterations; 0 = stage 1 only
@@ -65,10 +66,6 @@ Surj(n, K) == {f \in [1..n -> 0..(K - 1)] : \A c \in 0..(K - 1) : \E s \in 1..n 
 Bnd(n, cuts, j) == IF j = 0 THEN 0
                    ELSE LET S == cuts \cup {n} IN CHOOSE b \in S : Cardinality({c \in S : c <= b}) = j
 CompOf(n, cuts) == [j \in 1..(Cardinality(cuts) + 1) |-> Bnd(n, cuts, j) - Bnd(n, cuts, j - 1)]
-\* every surjective labelling (sorted or not) x every composition, n in nmin..nmax, K in 1..kmax
-AllScn(nmin, nmax, kmax) ==
-    UNION {{<<yy, CompOf(n, cuts)>> : yy \in Surj(n, K), cuts \in SUBSET (1..(n - 1))} :
-           n \in nmin..nmax, K \in 1..kmax}
 
 N == Len(y)
 P == Len(comp)
@@ -86,7 +83,10 @@ NoRes == [ver |-> <<>>, smp |-> <<>>]
 LastAttr == IF kind = "ISV" THEN "U" ELSE "D"
 NotAssigned == IF "BAG_RESULT_NOT_ASSIGNED" \in Dev THEN {LastAttr} ELSE {}
 
-Init == /\ \E s \in ScnSet : y = s[1] /\ comp = s[2]
+Init == /\ \/ \E s \in ScnSet : y = s[1] /\ comp = s[2]
+           \/ \E n \in Gen[1]..Gen[2], K \in 1..Gen[3] :
+                 /\ y \in Surj(n, K)
+                 /\ \E cuts \in SUBSET (1..(n - 1)) : comp = CompOf(n, cuts)
         /\ mode \in Modes /\ kind \in Kinds /\ iters \in Iters
         /\ (iters = 0 => mode = CHOOSE m \in Modes : TRUE) /\ (iters = 0 => kind = CHOOSE k \in Kinds : TRUE)
         /\ Pow(Fact(NClasses), Len(Phases(kind)) * iters) <= MaxOrders
@@ -207,8 +207,9 @@ Expected(p, done) == [a \in Attrs |->
        ELSE 0]
 HostFreshAfterIter == (stage \in {"em", "done"} /\ g = "idle") => host = Expected(ph, it)
 AllContribsAtCurrentVersion ==
-    stage = "em" => /\ \A k \in edone : eres[k + 1].ver = Expected(ph, it)
-                    /\ g = "E" => \A k \in Classes \ edone : eres[k + 1] = NoRes
+    (stage = "em" /\ g # "idle") =>
+        /\ \A k \in edone : eres[k + 1].ver = Expected(ph, it)        \* `it` M-steps of this phase done so far
+        /\ g = "E" => \A k \in Classes \ edone : eres[k + 1] = NoRes
 ExactlyOncePerMStep ==
     (stage = "em" /\ g \in {"A", "N"}) =>
         /\ mcls = [c \in 1..NClasses |-> c - 1]               \* every class once
